@@ -65,4 +65,21 @@ for taps, B in ((3, 8), (4, 16)):
         fb = PF.PolyphaseFilterbank(num_taps=taps, num_branches=B, window_fn=win)
         ref = scipy.signal.firwin(taps * B, cutoff=1.0 / B, window=win, scale=True) * taps * B
         R.check('window/own-window_fn', dict(taps=taps, B=B, window=win), np.allclose(np.array(fb.window), ref, atol=1e-12), None)
+# a long one-shot input with the cache off (more than 1024 and more than 2048 windows): spectrum count and the spectra around the 1024-window marks
+for W in (1028, 2051):
+    taps, B = 2, 4
+    fb = PF.PolyphaseFilterbank(num_taps=taps, num_branches=B)
+    x = np.random.default_rng(R.seed + W).normal(size=W * taps * B)
+    out = R.guard('long-input/no-exception', dict(windows=W), lambda: fb.channelize(x, cache=False))
+    if out is None:
+        continue
+    h = np.array(fb.window)
+    ok = out.shape == ((W - 1) * taps, B // 2)
+    worst = 0.0
+    for n_ in [0, 5, 1023 * taps - 1, 1023 * taps, 1023 * taps + 1, 1024 * taps + 3, (W - 1) * taps - 1]:
+        if n_ < out.shape[0]:
+            fir = np.array([sum(h[j * B + b] * x[(n_ + j) * B + b] for j in range(taps)) for b in range(B)])
+            refrow = (np.fft.fft(fir) / B ** 0.5)[:B // 2]
+            worst = max(worst, float(np.max(np.abs(out[n_] - refrow))))
+    R.check('definition/long-one-shot-input-cache-off', dict(windows=W), ok and worst < 1e-9, [list(out.shape), worst], [(W - 1) * taps, B // 2])
 R.finish()
